@@ -258,6 +258,8 @@ def run_miri(ctx, cases, corr, per_tag=12, limit=700):
     for c in cases:
         if c.kind not in ("req", "dec", "arb") or len(c.hline) > 6000 or c.impl is None:
             continue
+        if any(f.startswith("@") or f in ("logging", "std") for f in c.feats):
+            continue        # the extra build variants (profile, log lines, std) are replayed natively only
         by.setdefault((c.cfg, c.feats), {}).setdefault(c.tag, []).append(c)
     total = 0
     for (cfg, feats), tags in sorted(by.items()):
@@ -378,7 +380,10 @@ def hard_errors(pid, rel, baseline):
         elif aspect.startswith("type:") and baseline is not None:
             key = aspect[5:]
             for sj in baseline["schemas"].values():
-                if sj["types"].get(key, {}).get("leaf") in ("enumStr", "enumRepr"):
+                lf = sj["types"].get(key, {}).get("leaf")
+                # numeric tables are read from the declaration; string tables from the recognising direction (`TryFrom<&str>`):
+                # an unreadable *emitting* direction (`From<Enum> for &str` moved into a helper) is an ordinary tier-B case
+                if lf == "enumRepr" or (lf == "enumStr" and "recognising table" in msg):
                     out.append((aspect, msg))
                     break
     return out
